@@ -7,6 +7,7 @@
 package main
 
 import (
+	"context"
 	"encoding/binary"
 	"fmt"
 	"os"
@@ -22,6 +23,7 @@ import (
 	"verifharness/lab/kvlab"
 
 	"go.miragespace.co/specter/kv/aof"
+	aofproto "go.miragespace.co/specter/kv/aof/proto"
 	"go.miragespace.co/specter/spec/chord"
 
 	"go.uber.org/zap"
@@ -108,6 +110,7 @@ func runCase(r *ev.Run, idx int) {
 	g.Weights = kvlab.MutationWeights()
 	g.ImportLeases = true
 	g.MaxValue = 24
+	g.EmptyBatches = true
 	defer func() { r.Count("mutations_with_a_bulk_key_set(15..300 keys)", int64(g.BulkOps)) }()
 	if idx%4 == 2 {
 		g.BulkMax = 129 // hand-overs of whole key ranges: one acknowledged mutation, many keys
@@ -404,6 +407,110 @@ func runCase(r *ev.Run, idx int) {
 			r.Sample(map[string]any{"case": name, "fault": f.desc, "result": "aof.New error: " + err.Error()})
 		}
 	}
+	// ---- a rejected append left in the log: the store appends a mutation before it applies it and
+	// takes a rejected one (duplicate child) out again; if the power fails in between, the log ends
+	// with an intact entry that replay must skip. Such an image is built by repeating, at the tail,
+	// the bytes of an earlier PrefixAppend whose child still exists at the end of the history. It
+	// must open with the final state; and after life has gone on (Put of an EMPTY value on every key
+	// that holds none — a no-op encoded with the value field absent — and a clean stop) it must
+	// open with the final state again.
+	if len(entries) > 0 {
+		final := m.Snapshot(false)
+		tried := 0
+		for ei := len(entries) - 1; ei >= 0 && tried < 2; ei-- {
+			e := entries[ei]
+			if e.hdrEnd >= e.cksStart {
+				continue
+			}
+			mu := &aofproto.Mutation{}
+			if err := mu.UnmarshalVT(pristine[e.hdrEnd:e.cksStart]); err != nil || mu.GetType() != aofproto.MutationType_PREFIX_APPEND {
+				continue
+			}
+			kv, ok := final[string(mu.GetKey())]
+			has := false
+			if ok {
+				for _, c := range kv.Children {
+					if c == string(mu.GetValue()) {
+						has = true
+					}
+				}
+			}
+			if !has {
+				continue
+			}
+			tried++
+			img := append(append([]byte{}, pristine...), pristine[e.pos:e.end]...)
+			desc := fmt.Sprintf("the log ends with a rejected PrefixAppend(%q,%q) whose rollback was lost (entry %d of %d repeated at the tail)", mu.GetKey(), mu.GetValue(), ei+1, len(entries))
+			if err := os.WriteFile(lastPath, img, 0o640); err != nil {
+				break
+			}
+			nImages.Add(1)
+			if c, _ := byFault.LoadOrStore("leftover-rejected", new(atomic.Int64)); true {
+				c.(*atomic.Int64).Add(1)
+			}
+			wit := func(extra map[string]any) map[string]any {
+				w := map[string]any{"fault": desc, "final_model_state": final, "history": trace}
+				for k, v := range extra {
+					w[k] = v
+				}
+				return w
+			}
+			d, err, pan := openImage(cfg)
+			if pan != "" {
+				r.Case("")
+				r.Violation("panic-on-reopen/leftover-rejected", name, desc+": aof.New panicked: "+pan, wit(nil))
+				continue
+			}
+			if err != nil {
+				// refusing to open is allowed by this property (C20 judges whether it may)
+				nErrors.Add(1)
+				r.Case("leftover-rejected/" + segCls + "/error")
+				continue
+			}
+			snap, diffs := kvlab.Observe(d, universe, false, nil)
+			if snap.Fingerprint() != finalFP || len(diffs) > 0 {
+				go d.Start()
+				d.Stop()
+				r.Case("")
+				r.Violation("non-prefix-state/leftover-rejected/first-open", name, desc+": the store opened with a state that is not the final state (the rejected mutation must have no effect)", wit(map[string]any{"recovered": snap, "diffs": diffs}))
+				continue
+			}
+			go d.Start()
+			ctx := context.Background()
+			var perr error
+			for k, v := range final {
+				if v.Simple == "" && perr == nil {
+					perr = d.Put(ctx, []byte(k), []byte{})
+				}
+			}
+			for _, k := range universe {
+				if _, ok := final[string(k)]; !ok && perr == nil {
+					perr = d.Put(ctx, k, []byte{})
+				}
+			}
+			d.Stop()
+			if perr != nil {
+				r.Inconclusive(fmt.Sprintf("%s: %s: Put of an empty value after recovery failed: %v", name, desc, perr))
+				continue
+			}
+			d2, err, pan := openImage(cfg)
+			if pan != "" || err != nil {
+				r.Case("")
+				r.Violation("second-open-fails/leftover-rejected", name, fmt.Sprintf("%s: the store opened, took empty-valued puts and a clean stop, and then did not open again: %v %s", desc, err, pan), wit(nil))
+				continue
+			}
+			snap2, diffs2 := kvlab.Observe(d2, universe, false, nil)
+			go d2.Start()
+			d2.Stop()
+			nRecovered.Add(1)
+			if snap2.Fingerprint() != finalFP || len(diffs2) > 0 {
+				r.Case("")
+				r.Violation("non-prefix-state/leftover-rejected/after-empty-valued-puts", name, desc+": after empty-valued puts (no-ops) and a clean stop the store opened with values that no prefix of the history produces", wit(map[string]any{"recovered": snap2, "diffs": diffs2}))
+				continue
+			}
+			r.Case("leftover-rejected/" + segCls + "/final-twice")
+		}
+	}
 	_ = os.WriteFile(lastPath, pristine, 0o640)
 }
 
@@ -423,7 +530,7 @@ func openImage(cfg aof.Config) (d *aof.DiskKV, err error, pan string) {
 
 func main() {
 	r := ev.Start("C22", "fault_enumeration")
-	r.SetRule("a history = 12-32 (52 thorough) PRNG mutations on the real AOF store (every 6th behind >= 2 MB of large values so the log has several segments, every 4th with a clean restart in the middle), stopped cleanly; fault images of the last segment file: truncation to every offset; the tail zeroed from every offset; every byte of the last entry xor {0x01,0x80,0xff,random}; seeded: 288 contiguous byte ranges inside ONE entry (last, or an earlier one with the later entries intact) replaced by PRNG garbage or zeros, 96 single-byte xors of earlier entries; crafted: 3 entries whose payload+checksum are masked as an unknown field, every entry whose length prefix is enlarged to swallow its successor. A case = one image reopened with aof.New; distinct+non-trivial by (fault kind, where it hits: entry boundary / length prefix / header / payload / checksum, last or earlier entry, single/multi segment, outcome: error / final / intermediate / empty state). 32 garbage tails per history are reopened too but only counted (outside the judged fault model)")
+	r.SetRule("a history = 12-32 (52 thorough) PRNG mutations on the real AOF store (every 6th behind >= 2 MB of large values so the log has several segments, every 4th with a clean restart in the middle), stopped cleanly; fault images of the last segment file: truncation to every offset; the tail zeroed from every offset; every byte of the last entry xor {0x01,0x80,0xff,random}; seeded: 288 contiguous byte ranges inside ONE entry (last, or an earlier one with the later entries intact) replaced by PRNG garbage or zeros, 96 single-byte xors of earlier entries; crafted: 3 entries whose payload+checksum are masked as an unknown field, every entry whose length prefix is enlarged to swallow its successor; and up to 2 'rejected append left at the tail' images (an earlier PrefixAppend whose child still exists repeated at the end), opened, given empty-valued puts and a clean stop, and opened again. A case = one image reopened with aof.New; distinct+non-trivial by (fault kind, where it hits: entry boundary / length prefix / header / payload / checksum, last or earlier entry, single/multi segment, outcome: error / final / intermediate / empty state). 32 garbage tails per history are reopened too but only counted (outside the judged fault model)")
 	r.Assume("histories are sampled; per history the truncation offsets and last-entry byte positions are enumerated completely, multi-byte and earlier-entry corruptions are seeded samples")
 	r.Assume("a fault is modelled as a change of the bytes of the last segment file only (older segments were synced when the segment was closed)")
 	r.Assume("the harness' parser of the tidwall/wal binary framing is used only to classify fault positions, never to decide")
